@@ -734,6 +734,7 @@ fn main() {
         "oneshot" => misc::oneshot(&mut cx),
         "meta" => misc::meta(&mut cx),
         "forbom" => misc::forbom(&mut cx),
+        "query-overflow" => misc::query_overflow(&mut cx),
         "dec-replay" => dec::replay(&mut cx.sh, &arg_val(&args, "--in").expect("--in FILE")),
         _ => {
             eprintln!("unknown profile {}", profile);
